@@ -271,6 +271,8 @@ def install(interp):
     for h in hooks:
         if h not in prog.functions:
             raise AnalysisError("model: hooked function vanished: %s" % h)
+    from . import av as _av
+    _av.IMPLIED_QUALS["DET"] = frozenset({DFA})
     interp.model_hooks = hooks
     interp.ctor_tags = {FA_EPSILON: EPS_TAG}
     overrides = {}
